@@ -503,9 +503,14 @@ func (c *ctxConn) Read(b []byte) (n int, err error) {
 		n, err = c.conn.Read(b)
 		if err != nil {
 			if netErr, ok := err.(net.Error); ok && netErr.Timeout() && netErr.Temporary() {
+				if n > 0 {
+					return n, nil
+				}
 				continue
 			}
-			return 0, err
+			// The bytes that came along with the error are still handed over: a TLS 1.2 connection,
+			// for instance, returns the last data together with the EOF of the peer's close alert.
+			return n, err
 		}
 
 		return n, nil
